@@ -646,6 +646,21 @@ func (x *Exec) convertTo(v Val, from, to types.Type, st *State) Val {
 			return Sc{toReal(sc), SReal}
 		}
 	}
+	if kt, kind := classify(to); kt == kObj && kind == "io.Reader" {
+		if src, ok := v.(Obj); ok && src.Kind == "bytes.Buffer" {
+			// an in-memory buffer passed where an io.Reader is expected: a reader whose stream is the buffer's content and never faults
+			c := x.c
+			out := c.normView(src.F["out"].(Sl))
+			c.declareFun("rd!in", []string{SInt}, arrSort(SInt, SInt))
+			c.declareFun("rd!end", []string{SInt}, SInt)
+			c.declareFun("rd!fault", []string{SInt}, SBool)
+			c.declareFun("rd!forever", []string{SInt}, SBool)
+			c.declareFun("rd!err", []string{SInt}, SInt)
+			id := c.fresh("memrd.id", SInt)
+			c.assumeDef(tAnd(tEq(app("rd!end", id), out.Len), tNot(app("rd!fault", id)), tEq(app("rd!in", id), out.Arr.(Sc).T)))
+			return Obj{"io.Reader", map[string]Val{"id": scInt(id), "consumed": scInt("0"), "membuf": out}}
+		}
+	}
 	if kt, _ := classify(to); kt == kAny && from != nil {
 		if kf, _ := classify(from); kf != kAny {
 			// boxing into an interface value: a non-nil token that determines the dynamic type and the value
